@@ -375,7 +375,8 @@ all_shapes!(pre_order_n5, 5, SHAPES5, 14, 16, |s| check_pre(s));
 
 // PostOrderIter / RtlPostOrderIter: the stack is a Vec of items that own a Vec (pointers stored in heap memory) and
 // `next` is recursive; CBMC cannot constant-fold anything read back from that stack, explores the recursion to the
-// unwind bound at every call and exceeds 12 GB after 10 min already for the 2-node tree (3 nodes: no result in 15 min).  Only the single-leaf tree is
+// unwind bound at every call and exceeds 12 GB after 10 min already for the 2-node tree (3 nodes: no result in 15 min;
+// even ONE call of `next` on root(leaf, leaf) exceeds 10 GB after 2 min).  Only the single-leaf tree is
 // feasible (1 s); it still pins down `index` (off-by-one) and the empty child_indices.
 all_shapes!(post_order_n1, 1, SHAPES1, 1, 4, |s| check_post(s, false));
 all_shapes!(rtl_post_order_n1, 1, SHAPES1, 1, 4, |s| check_post(s, true));
@@ -383,35 +384,3 @@ all_shapes!(rtl_post_order_n1, 1, SHAPES1, 1, 4, |s| check_post(s, true));
 all_shapes!(verbose_n1, 1, SHAPES1, 1, 4, |s| check_verbose(s));
 all_shapes!(verbose_n2, 2, SHAPES2, 1, 6, |s| check_verbose(s));
 
-// ONE call of PostOrderIter::next / RtlPostOrderIter::next on the 3-node tree root(leaf, leaf): the first yield
-// must be the first (rtl: the last) child, with index 0 and no child index.  (Running these iterators to exhaustion
-// is out of CBMC's reach beyond the single-leaf tree; this at least pins down the order in which children are pushed.)
-#[kani::proof]
-#[kani::unwind(5)]
-fn post_order_first_yield_n3() {
-    kani::cover!(true);
-    let _s = install(3, SHAPES3[1], false);
-    let mut it = Nd(0).post_order_iter();
-    match it.next() {
-        None => assert!(false, "C01,C02,C03,C04,C07,C09,C17,C19,C20:post.first_yield_is_first_child"),
-        Some(item) => {
-            assert!(item.node.i() == 1, "C01,C02,C03,C04,C07,C09,C17,C19,C20:post.first_yield_is_first_child");
-            assert!(item.index == 0 && item.child_indices.len() == 0, "C01,C02,C03,C04,C07,C09,C17,C19,C20:post.first_yield_index");
-        }
-    }
-}
-
-#[kani::proof]
-#[kani::unwind(5)]
-fn rtl_post_order_first_yield_n3() {
-    kani::cover!(true);
-    let _s = install(3, SHAPES3[1], false);
-    let mut it = Nd(0).rtl_post_order_iter();
-    match it.next() {
-        None => assert!(false, "C01,C02,C03,C04,C07,C09,C17,C19,C20:rtl.first_yield_is_last_child"),
-        Some(item) => {
-            assert!(item.node.i() == 2, "C01,C02,C03,C04,C07,C09,C17,C19,C20:rtl.first_yield_is_last_child");
-            assert!(item.index == 0 && item.child_indices.len() == 0, "C01,C02,C03,C04,C07,C09,C17,C19,C20:rtl.first_yield_index");
-        }
-    }
-}
